@@ -7,6 +7,7 @@ import (
 	"testing"
 	"time"
 
+	"github.com/0xrawsec/sod"
 	"github.com/0xrawsec/sod/vshim"
 	"pgregory.net/rapid"
 )
@@ -75,6 +76,7 @@ func caseC09(t TB, prog *Program) {
 		vshim.SetClock(vshim.ClockScaled, 50)
 		vshim.SetIntensity(0)
 		e := NewEnv(t, prog, RunOpts{NoObs: true})
+		e.db.Create(&Other{}, sod.DefaultSchema)
 		done := make(chan struct{})
 		go func() {
 			defer close(done)
@@ -146,6 +148,7 @@ func caseC09(t TB, prog *Program) {
 		vshim.SetClock(vshim.ClockReal, 1)
 	}()
 	e := NewEnv(t, prog, RunOpts{NoObs: true})
+	e.db.Create(&Other{}, sod.DefaultSchema)
 	e.Run()
 	known := append([]string(nil), e.m.live...)
 	var wg sync.WaitGroup
